@@ -282,3 +282,84 @@ func (g *gen) exclusions(doc *Node, suite string, request bool) []string {
 	}
 	return out
 }
+
+// ambiguousDoc: a document in which one exclusion text reads as two different
+// paths (finding F-C16c): a key "k1.k2" (or "k1[]") next to the nesting it
+// imitates, possibly below a common head, with other members around.
+func (g *gen) ambiguousDoc() (*Node, []string) {
+	r := g.r
+	g.budget = 8
+	g.pool = []string{c.Pick(r, keyPool), c.Pick(r, keyPool), c.Pick(r, keyPool)}
+	k1, k2 := c.Pick(r, keyPool), c.Pick(r, keyPool)
+	obj := &Node{Kind: kObj}
+	add := func(key string, v *Node) {
+		obj.K = append(obj.K, key)
+		obj.A = append(obj.A, v)
+	}
+	var text string
+	inner := func() *Node {
+		if r.Chance(1, 3) {
+			return g.object(1)
+		}
+		return g.prim()
+	}
+	switch r.Intn(3) {
+	case 0: // "k1.k2" vs k1 -> k2
+		text = "." + k1 + "." + k2
+		add(k1+"."+k2, inner())
+		add(k1, &Node{Kind: kObj, K: []string{k2, "z"}, A: []*Node{inner(), g.prim()}})
+	case 1: // "k1[]" vs k1 -> array
+		text = "." + k1 + "[]"
+		add(k1+"[]", inner())
+		add(k1, &Node{Kind: kArr, A: []*Node{inner(), g.prim()}})
+	default: // three readings: "k1.k2.k2", k1 -> "k2.k2", k1 -> k2 -> k2
+		text = "." + k1 + "." + k2 + "." + k2
+		add(k1+"."+k2+"."+k2, g.prim())
+		add(k1, &Node{Kind: kObj, K: []string{k2 + "." + k2, k2},
+			A: []*Node{g.prim(), {Kind: kObj, K: []string{k2}, A: []*Node{inner()}}}})
+	}
+	if r.Chance(1, 2) {
+		obj.K[0], obj.K[1] = obj.K[1], obj.K[0]
+		obj.A[0], obj.A[1] = obj.A[1], obj.A[0]
+	}
+	add("other", g.prim())
+	doc := obj
+	if r.Chance(1, 3) { // below a common head
+		head := c.Pick(r, keyPool)
+		doc = &Node{Kind: kObj, K: []string{head, "w"}, A: []*Node{obj, g.prim()}}
+		text = "." + head + text
+	}
+	excl := []string{text}
+	if r.Chance(1, 3) {
+		excl = append(excl, ".other")
+	}
+	return doc, excl
+}
+
+// rawBody: a text that is not a JSON document for any parser: a proper prefix of
+// a serialized object/array (brackets left open), a document followed by
+// garbage, or plain text.
+func (g *gen) rawBody() string {
+	r := g.r
+	switch x := r.Intn(100); {
+	case x < 45:
+		for {
+			g.small = true
+			doc := g.document()
+			if doc.isLeaf() {
+				continue
+			}
+			t := g.serialize(doc)
+			return t[:1+r.Intn(len(t)-1)]
+		}
+	case x < 60:
+		g.small = true
+		doc := g.document()
+		if doc.isLeaf() {
+			doc = &Node{Kind: kArr, A: []*Node{doc}}
+		}
+		return g.serialize(doc) + c.Pick(r, []string{"x", "}", " ,", "{}", "]"})
+	}
+	return c.Pick(r, []string{"not json", "<xml><a>secret</a></xml>", "{'a':1}", "name=alice&id=7", " ",
+		"secret", "{\"a\":}", "[,]", "{\"a\" 1}", "\"unterminated", "\x00\x01binary", "key: value\nother: 2", "{", "]"})
+}
